@@ -7,8 +7,8 @@ From Raven Require Import Base.GoStr Model.Flags Model.FlagStore Spec.FlagHistor
 Import ListNotations.
 Local Open Scope Z_scope.
 
-Definition env0 := mkEnv 1 5.
-Definition st0 := mkSt [] [(1,1);(2,1);(3,1);(4,1);(5,1)] 1.
+Definition env0 := mkEnv 1.
+Definition st0 := mkSt [] [(1,1);(2,1);(3,1);(4,1);(5,1)] 1 (Some 5).
 Definition one (n : Z) : seqset := [(Some n, Some n)].
 
 (** the step violates the reference semantics, visibly in mailbox [mb] *)
@@ -81,3 +81,18 @@ Lemma fixed_flag_atom :
             OUidStore false false 1 (one 1) IT_FLAGS [S_ "a\b"]; OAppend 1 [S_ "a""b"]; OAppend 1 [S_ "\*"]] in
   view (links (run env0 st0 h)) 1 = [(1, [S_ "kw"])] /\ next_of (nexts (run env0 st0 h)) 1 = 2.
 Proof. vm_compute. split; reflexivity. Qed.
+
+(** RENAME Spam x (no mailbox named Spam): the auto-move fails and the flags are
+    stored in place, with or without .SILENT, +FLAGS and FLAGS; after CREATE
+    Spam a newly added Junk moves the message into the new mailbox (id 6) *)
+Lemma move_fails_example :
+  let h := [OAppend 1 [S_ "kw"]; OAppend 1 []; ODropSpam false;
+            OStore false false 1 (one 2) IT_ADD [JUNK; S_ "\Flagged"];
+            OUidStore false true 1 (one 1) IT_FLAGS [JUNK; SEEN]] in
+  hist_class env0 st0 h = None
+  /\ view (links (run env0 st0 h)) 1 = [(1, [JUNK; SEEN]); (2, [JUNK; S_ "\Flagged"])]
+  /\ unseen_count (links (run env0 st0 h)) 1 = 1
+  /\ search (links (run env0 st0 h)) 1 (KHas JUNK) = [1; 2]
+  /\ view (links (run env0 st0 (h ++ [OCreateSpam 6; OUidStore false false 1 (one 2) IT_DEL [JUNK];
+                                        OUidStore false false 1 (one 2) IT_ADD [JUNK]]))) 6 = [(1, [S_ "\Flagged"; JUNK])].
+Proof. vm_compute. repeat split. Qed.
